@@ -47,6 +47,7 @@ type scenario struct {
 	Acc  *types.Var
 	Acc2 *types.Var // second getter for order scenarios on one element
 	NonEmpty int    // 1 + index of a list parameter assumed non-empty (0 = none)
+	NonEmptyFn *ssa.Function // the list returned (result 0) by this function is non-empty on success
 }
 
 func (s scenario) String() string {
@@ -163,7 +164,22 @@ func (c *simCtx) isBase(v ssa.Value) bool {
 		}
 	}
 	if !c.sc.Elem {
-		return c.sc.Param < len(c.f.Params) && v == ssa.Value(c.f.Params[c.sc.Param])
+		if c.sc.Param < len(c.f.Params) && v == ssa.Value(c.f.Params[c.sc.Param]) {
+			return true
+		}
+		// element of the notation-converted one-element list {subject}
+		if ld, ok := loadOf(v); ok {
+			if ia, ok := ld.(*ssa.IndexAddr); ok {
+				if ex, ok := resolve(ia.X).(*ssa.Extract); ok && ex.Index == 0 {
+					if call, ok := ex.Tuple.(*ssa.Call); ok && (calleeIs(call, modPath+"/shape", "ConvertSpatialIdsToExtendedSpatialIds") || calleeIs(call, modPath+"/shape", "ConvertExtendedSpatialIdsToSpatialIds")) {
+						if vals, ok := sliceLiteral(call.Call.Args[0]); ok && len(vals) == 1 && c.sc.Param < len(c.f.Params) && resolve(vals[0]) == ssa.Value(c.f.Params[c.sc.Param]) {
+							return true
+						}
+					}
+				}
+			}
+		}
+		return false
 	}
 	if c.loop == nil {
 		return false
@@ -728,6 +744,15 @@ func (c *simCtx) explore(start *ssa.BasicBlock, stop map[*ssa.BasicBlock]bool) m
 		for _, sr := range findSliceRanges(c.f) {
 			if c.splitOfSubject(sr.X) {
 				blocked[sr.Header] = sr.Done
+			}
+		}
+	}
+	if c.sc.NonEmptyFn != nil {
+		for _, sr := range findSliceRanges(c.f) {
+			if ex, ok := resolve(sr.X).(*ssa.Extract); ok && ex.Index == 0 {
+				if call, ok := ex.Tuple.(*ssa.Call); ok && calleeOf(call) == c.sc.NonEmptyFn {
+					blocked[sr.Header] = sr.Done
+				}
 			}
 		}
 	}
